@@ -34,7 +34,7 @@ def run(res, ctx):
     known = load_known("C16")
     known_ids = {k["id"] for k in known}
     known_hit = collections.Counter()
-    n = 300 if tier == "quick" else 4000
+    n = 300 if tier == "quick" else 20000
     cases_a, cases_b, cases_c, meta = [], [], [], []
     for _ in range(n):
         k = rng.random()
